@@ -287,6 +287,16 @@ def discharge(F, cg, site, pr, ctxinfo):
         a, b = P.const_int(site.info["a"]), P.const_int(site.info["b"])
         if a is not None and b is not None:
             return "R-const"
+        # code(enum) + small constant: the code is at most the number of variants (C13's tables)
+        if site.info.get("op") == "Add":
+            for x, c in ((site.info["a"], b), (site.info["b"], a)):
+                if c is not None and 0 <= c <= 64:
+                    xs = x
+                    while xs[0] == "cast" or (xs[0] == "call" and xs[1] not in F.fns and xs[1].rsplit("::", 1)[-1] in ("from", "into") and len(xs[2]) == 1):
+                        xs = xs[2] if xs[0] == "cast" else xs[2][0]
+                    m = enum_code_max(F, xs)
+                    if m is not None and m + c <= 255:
+                        return "R-enum-code-arith"
     if site.kind == "unwrap":
         arg = site.info.get("arg")
         if arg is not None:
